@@ -87,7 +87,7 @@ var ldhLabels = []string{"a", "b", "h", "example", "com", "org", "www", "x-y", "
 
 var numberLabels = []string{"0", "1", "7", "9", "10", "127", "255", "256", "0x", "0X", "0x0", "0x7f", "0xff", "0x100", "0XFF", "00", "01", "07", "08", "09", "010", "0377", "0400",
 	"65535", "65536", "16777215", "16777216", "4294967295", "4294967296", "0xffffffff", "0x100000000", "037777777777", "040000000000", "99999999999999999999",
-	"0xfffffffffffffffffff", "-1", "+1", "1-", "0x+f", "0x-1", "1e3", "1_0", "0b1", "0o7", "0xg", "1a", "a1", "0x1g", "١", "１"}
+	"0xfffffffffffffffffff", "0x000000007f", "0x00000000000000000001", "0000000000000012", "00000000000000000000377", "000000000000000000000000001", "-1", "+1", "1-", "0x+f", "0x-1", "1e3", "1_0", "0b1", "0o7", "0xg", "1a", "a1", "0x1g", "١", "１"}
 
 // IPv4Host returns an IPv4-looking host string (valid or not).
 func IPv4Host(r *rand.Rand) string {
@@ -101,9 +101,9 @@ func IPv4Host(r *rand.Rand) string {
 		case 0:
 			parts[i] = strconv.Itoa(r.IntN(300))
 		case 1:
-			parts[i] = "0x" + strconv.FormatInt(int64(r.IntN(300)), 16)
+			parts[i] = "0x" + strings.Repeat("0", []int{0, 0, 0, 5, 9, 20}[r.IntN(6)]) + strconv.FormatInt(int64(r.IntN(300)), 16)
 		case 2:
-			parts[i] = "0" + strconv.FormatInt(int64(r.IntN(300)), 8)
+			parts[i] = "0" + strings.Repeat("0", []int{0, 0, 0, 5, 12, 25}[r.IntN(6)]) + strconv.FormatInt(int64(r.IntN(300)), 8)
 		case 3:
 			parts[i] = ""
 		default:
@@ -125,7 +125,7 @@ func IPv4Host(r *rand.Rand) string {
 }
 
 var ipv6Pieces = []string{"", "0", "1", "f", "A", "10", "0db8", "ffff", "FFFF", "00000", "g", "0000", "00", "1234", "abcd"}
-var ipv4Tails = []string{"1.2.3.4", "0.0.0.0", "255.255.255.255", "192.168.0.1", "01.2.3.4", "1.02.3.4", "1.2.3.04", "256.1.1.1", "1.1.1.256", "1.2.3", "1.2.3.4.5", "1..2.3", "1.2.3.", ".1.2.3", "1.2.3.a", "0x1.2.3.4", "1.2.3.4 ", "001.1.1.1", "1.2.3.999", "25.5.2.55", "0.0.0.00"}
+var ipv4Tails = []string{"1.2.3.4", "0.0.0.0", "255.255.255.255", "192.168.0.1", "01.2.3.4", "1.02.3.4", "1.2.3.04", "256.1.1.1", "1.1.1.256", "1.2.3", "1.2.3.4.5", "1..2.3", "1.2.3.", ".1.2.3", "1.2.3.a", "0x1.2.3.4", "1.2.3.4 ", "001.1.1.1", "1.2.3.999", "25.5.2.55", "0.0.0.00", "1.2.3.9999999999999999999", "1.2.3.18446744073709551617", "1.18446744073709551616.3.4", "1.2.340282366920938463463374607431768211457.4", "1.2.3.0000000000000000000004", "1.2.3.4294967297"}
 
 // IPv6Text returns the text between brackets (valid or not).
 func IPv6Text(r *rand.Rand) string {
